@@ -307,6 +307,12 @@ def check_no_dead_code(report, repo, rule):
         continue
       if isinstance(st, ast.Expr) and isinstance(st.value, ast.Constant):
         continue
+      # defensive leftovers (`raise ...` / bare return / pass after an
+      # exhaustive branch) carry no behaviour: not reported
+      if isinstance(st, (ast.Raise, ast.Pass, ast.Break, ast.Continue)) or (
+          isinstance(st, ast.Return) and not any(
+              isinstance(x, ast.Call) for x in ast.walk(st))):
+        continue
       if id(st) not in reach:
         dead.append(st)
     n += 1
